@@ -1,6 +1,7 @@
 package main
 
 import (
+	"crypto/sha256"
 	"bytes"
 	stdjson "encoding/json"
 	"fmt"
@@ -313,7 +314,11 @@ func streamStd(r *rng, n int, pfx string) {
 			})
 			emit("STD %s encoder-stream => %s", id, res)
 		case 6: // run-time generated struct types with tags: Marshal and Unmarshal against encoding/json
-			typ := genStructType(r, 2)
+			recentStructs = nil
+			typ := genStructType(r, 2+r.n(2))
+			if r.chance(1, 6) {
+				typ = genDiamond(r)
+			}
 			val := reflect.New(typ).Elem()
 			fillValue(r, val, 2)
 			// a text to decode: the marshalled value with its member names re-cased now and then, plus extras
@@ -704,6 +709,7 @@ func streamHist(r *rng, n int, pfx string) {
 	for done < n {
 		k := 6
 		calls := prepareCalls(r, k)
+		scribble = round%2 == 1
 		steps := 3 * k
 		for s := 0; s < steps && done < n; s++ {
 			if r.chance(1, 2) {
@@ -765,6 +771,28 @@ func streamCli(r *rng, n int, pfx string) {
 		}
 		bin := bins[pkg]
 		if bin == "" {
+			continue
+		}
+		if r.chance(1, 50) {
+			// a BIG run: copies that keep doubling an array (8-30 MB of output) in one file or split over two; the
+			// command must do what the library does whatever the sizes (limits, buffers); compared by digest
+			k := 17 + r.n(5)
+			one := `{"op":"copy","from":"/a","path":"/a/-"}`
+			mk := func(n int) []byte { return []byte("[" + strings.Repeat(one+",", n-1) + one + "]") }
+			var texts [][]byte
+			if r.chance(1, 2) {
+				texts = [][]byte{mk(k)}
+			} else {
+				texts = [][]byte{mk(k - 1), mk(1)}
+			}
+			var args, fields []string
+			for f, t := range texts {
+				name := filepath.Join(dir, fmt.Sprintf("big%d_%d.json", i, f))
+				os.WriteFile(name, t, 0o644)
+				args = append(args, "-p", name)
+				fields = append(fields, hx(t))
+			}
+			emitCli(fmt.Sprintf("%s%d", pfx, i), pkg+"big", bin, []byte(`{"a":["0123456789"]}`), args, fields, texts, false)
 			continue
 		}
 		cfg := cfgFor(r)
@@ -969,7 +997,7 @@ func emitCli(id, pkg, bin string, stdin []byte, args, fields []string, texts [][
 		libExit = 1
 	} else {
 		mdoc := stdin
-		if pkg == "v5" {
+		if strings.HasPrefix(pkg, "v5") {
 			var ps []jsonpatch.Patch
 			for _, t := range texts {
 				p, err := jsonpatch.DecodePatch(t)
@@ -1017,9 +1045,21 @@ func emitCli(id, pkg, bin string, stdin []byte, args, fields []string, texts [][
 			libOut = mdoc
 		}
 	}
+	outB := so.Bytes()
+	if strings.HasSuffix(pkg, "big") {
+		// megabytes of output: SHA-256 digests stand for the two texts (empty stays empty)
+		dg := func(b []byte) []byte {
+			if len(b) == 0 {
+				return b
+			}
+			h := sha256.Sum256(b)
+			return h[:]
+		}
+		outB, libOut = dg(outB), dg(libOut)
+	}
 	toks := []string{"CLI", id, pkg, hx(stdin), strconv.Itoa(len(fields))}
 	toks = append(toks, fields...)
-	toks = append(toks, "=>", hx(so.Bytes()), strconv.Itoa(exit), hx(libOut), strconv.Itoa(libExit), strconv.Itoa(se.Len()))
+	toks = append(toks, "=>", hx(outB), strconv.Itoa(exit), hx(libOut), strconv.Itoa(libExit), strconv.Itoa(se.Len()))
 	emit("%s", strings.Join(toks, " "))
 }
 
@@ -1027,6 +1067,75 @@ func emitCli(id, pkg, bin string, stdin []byte, args, fields []string, texts [][
 
 var fieldNames = []string{"A", "B", "Name", "NAME", "Name2", "X1", "X_1", "Key", "KEY", "Ab", "AB", "Inner", "Val", "K9", "Zeta"}
 var tagNames = []string{"", "", "a", "A", "name", "Name", "k9", "K9", "x-1", "x_1", "ſ", "K", "k", "-", "with space", "é"}
+
+// struct types generated for the current top-level type: one of them is REUSED now and then, so that the same type is
+// reached along two embedding paths (a diamond: its promoted fields are ambiguous at equal depth, visible at different depths)
+var recentStructs []reflect.Type
+
+// a DIAMOND of embedded structs: Top embeds Left and Right (optionally through pointers), both embed the same Mid, and Mid
+// may itself embed a Leaf: which promoted fields are ambiguous (dropped) and which are reached through the first path is
+// decided by depth and multiplicity counters in typeFields
+func genDiamond(r *rng) (t reflect.Type) {
+	defer func() {
+		if recover() != nil {
+			t = genStructType(r, 1)
+		}
+	}()
+	emb := func(name string, ty reflect.Type, tag string) reflect.StructField {
+		f := reflect.StructField{Name: name, Type: ty, Anonymous: true}
+		if tag != "" {
+			f.Tag = reflect.StructTag(`json:"` + tag + `"`)
+		}
+		return f
+	}
+	plain := func(name string, tag string) reflect.StructField {
+		f := reflect.StructField{Name: name, Type: []reflect.Type{reflect.TypeOf(0), reflect.TypeOf(""), reflect.TypeOf(true)}[r.n(3)]}
+		if tag != "" {
+			f.Tag = reflect.StructTag(`json:"` + tag + `"`)
+		}
+		return f
+	}
+	leaf := reflect.StructOf([]reflect.StructField{plain("X1", r.pick([]string{"", "x", "k"})), plain("Val", r.pick([]string{"", "y"}))})
+	midF := []reflect.StructField{plain("Key", r.pick([]string{"", "k", "z"}))}
+	if r.chance(2, 3) {
+		midF = append(midF, emb("Inner", leaf, ""))
+	}
+	mid := reflect.StructOf(midF)
+	side := func(extra string) reflect.Type {
+		fs := []reflect.StructField{emb("Zeta", mid, "")}
+		if r.chance(1, 2) {
+			fs = append(fs, plain(extra, r.pick([]string{"", "k", "x"})))
+		}
+		return reflect.StructOf(fs)
+	}
+	left, right := side("A"), side("B")
+	if r.chance(1, 3) {
+		right = left
+	}
+	topF := []reflect.StructField{emb("Name", left, ""), emb("Name2", right, "")}
+	if r.chance(1, 3) {
+		topF[1] = emb("Name2", reflect.PtrTo(right), "")
+	}
+	if r.chance(1, 2) {
+		topF = append(topF, plain("K9", r.pick([]string{"", "x", "k", "y"})))
+	}
+	if r.chance(1, 4) {
+		// a third path at another depth
+		topF = append(topF, emb("Ab", mid, ""))
+	}
+	return reflect.StructOf(topF)
+}
+
+func subStruct(r *rng, depth int) reflect.Type {
+	if len(recentStructs) > 0 && r.chance(1, 3) {
+		return recentStructs[r.n(len(recentStructs))]
+	}
+	t := genStructType(r, depth)
+	if t != nil && len(recentStructs) < 8 {
+		recentStructs = append(recentStructs, t)
+	}
+	return t
+}
 
 func genStructType(r *rng, depth int) reflect.Type {
 	n := 1 + r.n(5)
@@ -1068,9 +1177,9 @@ func genStructType(r *rng, depth int) reflect.Type {
 				t = reflect.SliceOf(genStructType(r, depth-1))
 			}
 		case depth > 0 && k == 10:
-			t = genStructType(r, depth-1)
+			t = subStruct(r, depth-1)
 		case depth > 0:
-			t = reflect.PtrTo(genStructType(r, depth-1))
+			t = reflect.PtrTo(subStruct(r, depth-1))
 		default:
 			t = []reflect.Type{reflect.TypeOf(int64(0)), reflect.TypeOf(int8(0)), reflect.TypeOf(int16(0)), reflect.TypeOf(int32(0)),
 				reflect.TypeOf([]float32(nil)), reflect.TypeOf(map[string]float32(nil)), reflect.TypeOf((*float32)(nil)), reflect.TypeOf([]int8(nil))}[r.n(8)]
@@ -1088,7 +1197,7 @@ func genStructType(r *rng, depth int) reflect.Type {
 			f.Tag = reflect.StructTag(`json:"` + tag + opts + `"`)
 		}
 		// an embedded struct (its fields are promoted unless it is tagged)
-		if t.Kind() == reflect.Struct && r.chance(1, 2) {
+		if (t.Kind() == reflect.Struct || (t.Kind() == reflect.Ptr && t.Elem().Kind() == reflect.Struct && r.chance(1, 2))) && r.chance(2, 3) {
 			f.Anonymous = true
 		}
 		fs = append(fs, f)
